@@ -34,6 +34,18 @@ OPS = [
     (r"!(?=[a-zA-Z_(])", ""), (r"\.insert\(", ".contains(&"), (r"\.skip\(1\)", ".skip(0)"),
 ]
 
+# second operator set (--ops2): literals, ranges, positions, early exits
+OPS2 = [
+    (r"\b([0-9])\b(?!\.\.)", lambda m: str(int(m.group(1)) + 1)), (r"\b([1-9])\b(?!\.\.)", lambda m: str(int(m.group(1)) - 1)),
+    (r"\.\.=", ".."), (r"(?<!\.)\.\.(?![.=])", "..="), (r"\.start\b", ".end"), (r"\.end\b", ".start"),
+    (r"\.first\(\)", ".last()"), (r"\.len_utf8\(\)", ".len_utf16()"), (r"\.iter\(\)", ".iter().rev()"),
+    (r"\bbreak\b", "continue"), (r"\.is_empty\(\)", ".is_empty() == false"), (r"\.as_non_optional\(\)", ".clone()"),
+    (r"\.is_null\(\)", ".is_optional()"), (r"\.contains\(", ".insert("), (r"\.extend\(", ".contains(&"),
+    (r"'\\u\{0020\}'", "'\\u{0021}'"), (r"'\\\\'", "'/'"), (r"\bu\b'", "x'"), (r"Some\(", "Option::Some("),
+    (r"\.windows\(2\)", ".windows(1)"), (r"\.zip\(", ".chain("), (r"&&\s*!", "&& "), (r"\.keys\(\)", ".keys().rev()"),
+    (r"\.to_optional_mut\(\);", ";"), (r"\.clone\(\)\.as_optional\(\)", ".clone()"),
+]
+
 
 def mutants(path):
     src = open(path).read().split("\n")
@@ -49,11 +61,11 @@ def mutants(path):
         if not s or s.startswith("//") or s.startswith("#[") or s.startswith("use ") or "cfg(feature" in l or "verif" in l:
             continue
         code = l.split("//")[0]
-        for pat, rep in OPS:
+        for pat, rep in (OPS2 if "--ops2" in sys.argv else OPS):
             for m in re.finditer(pat, code):
-                new = code[: m.start()] + rep + code[m.end():]
+                new = code[: m.start()] + (rep(m) if callable(rep) else rep) + code[m.end():]
                 if new != code:
-                    out.append((i, l, new + l[len(code):], f"{pat} -> {rep}"))
+                    out.append((i, l, new + l[len(code):], f"{pat} -> {rep if not callable(rep) else 'fn'}"))
     return src, out
 
 
